@@ -266,7 +266,7 @@ func countFails(steps []c14Step) int {
 	return n
 }
 
-var failClasses = []string{"syntax", "undefined-reference", "duplicate-type", "duplicate-member-by-extend", "extend-missing-target", "extend-kind-mismatch", "validation-rule", "validation-rule", "validation-rule-on-existing", "schema-extension-only-error", "schema-block-then-failure", "reader-fault", "second-extension-fails", "extension-fails-midway"}
+var failClasses = []string{"syntax", "undefined-reference", "duplicate-type", "duplicate-member-by-extend", "extend-missing-target", "extend-kind-mismatch", "validation-rule", "validation-rule", "validation-rule-on-existing", "schema-extension-only-error", "schema-block-then-failure", "reader-fault", "second-extension-fails", "extension-fails-midway", "membership-rolled-back"}
 
 // touchContent writes valid content that modifies existing definitions (extends, schema block).
 func touchContent(t *rapid.T, s *hx.Schema, n int, label string) string {
@@ -460,6 +460,52 @@ func genCaseC14(t *rapid.T) *c14Case {
 				case td.Kind == hx.KUnion && len(td.Members) > 0:
 					bad = fmt.Sprintf("type ZqMidT%d { a: Int }\nextend union %s = ZqMidT%d | %s", n, some, n, td.Members[0])
 				}
+			}
+		case "membership-rolled-back":
+			// a refused document would have made an existing object a member of a union (or an
+			// implementer of an interface); the NEXT document is well-formed only if it had: it has
+			// to be refused too
+			bad = fmt.Sprintf("type Zq%d { q: Nope%d }", n, n)
+			lm := loadedModel()
+			var pair [2]string
+			relies := ""
+			for _, u := range lm.Types {
+				for _, o := range lm.Types {
+					if o.Kind != hx.KObject || pair[0] != "" {
+						continue
+					}
+					switch {
+					case u.Kind == hx.KUnion && !u.HasMember(o.Name):
+						pair = [2]string{u.Name, o.Name}
+						bad = fmt.Sprintf("extend union %s = %s\ninterface ZqRbI%d { b: Int }\ntype ZqRbT%d implements ZqRbI%d { a: Int }", u.Name, o.Name, n, n, n)
+						relies = fmt.Sprintf("interface ZqOwn%d { pet: %s }\ntype ZqKen%d implements ZqOwn%d { pet: %s }\n", n, u.Name, n, n, o.Name)
+					case u.Kind == hx.KInterface && len(u.Fields) > 0 && len(u.Fields[0].Args) == 0:
+						implements := false
+						for _, in := range o.Interfaces {
+							implements = implements || in == u.Name
+						}
+						complete := true
+						for _, f := range u.Fields {
+							complete = complete && o.Field(f.Name) != nil
+						}
+						if !implements && !complete {
+							var missing []string
+							for _, f := range u.Fields {
+								if o.Field(f.Name) == nil && len(f.Args) == 0 {
+									missing = append(missing, f.Name+": "+f.Type.String())
+								}
+							}
+							pair = [2]string{u.Name, o.Name}
+							bad = fmt.Sprintf("extend type %s implements %s { %s }\ninterface ZqRbI%d { b: Int }\ntype ZqRbT%d implements ZqRbI%d { a: Int }", o.Name, u.Name, strings.Join(missing, " "), n, n, n)
+							relies = fmt.Sprintf("interface ZqOwn%d { pet: %s }\ntype ZqKen%d implements ZqOwn%d { pet: %s }\n", n, u.Name, n, n, o.Name)
+						}
+					}
+				}
+			}
+			if relies != "" {
+				st.Text = bad + "\n"
+				c.Steps = append(c.Steps, st, c14Step{Kind: "fail", Class: "relies-on-rolled-back-membership", Text: relies})
+				continue
 			}
 		case "reader-fault":
 			bad = ""
